@@ -280,7 +280,11 @@ fn gen_params_case(t: &mut Tape) -> E2Case {
                     Tail::None
                 };
                 match tail {
-                    Tail::Update => params.push(TParam::Update(if is_from { "upd_s()".into() } else { "upd_d()".into() })),
+                    Tail::Update => {
+                        // the bindings are evaluated before the result is built, so the ..update expression may read them too
+                        let base = if is_from { "upd_s()" } else { "upd_d()" };
+                        params.push(TParam::Update(if nv > 0 && t.coin() { format!("keep({}, {}{})", base, if is_from { "v" } else { "w" }, nv - 1) } else { base.to_string() }));
+                    }
                     Tail::Return => {
                         labels.push("return".into());
                         let v = if nv > 0 { format!("{}{}", if is_from { "v" } else { "w" }, nv - 1) } else { "0".to_string() };
@@ -337,6 +341,7 @@ fn gen_params_case(t: &mut Tape) -> E2Case {
     if bare_parent {
         h.push_str("#[allow(unused_imports)] use o2o::traits::{IntoExisting, TryIntoExisting};\n#[derive(Debug, Clone, PartialEq, Default)] pub struct P { pub pm: i64 }\n");
     }
+    h.push_str("pub fn keep<T>(x: T, _v: i64) -> T { x }\n");
     let _ = write!(h, "pub fn upd_s() -> S {{ S {{ a: -1, b: -2, c: -3, {}{} }} }}\n", if s_ghost { "gh: -4, " } else { "" }, if bare_parent { "p: P { pm: -5 }, " } else { "" });
     let _ = write!(h, "pub fn upd_d() -> D {{ D {{ x: -11, b: -12, c: -13, dg: -14, {}{} }} }}\n", if d_extra { "du: -15, " } else { "" }, if bare_parent { "pm: -16, " } else { "" });
     let _ = write!(h, "pub fn ret_s(p: i64, q: i64) -> S {{ S {{ a: p + 100, b: q + 200, c: 300, {}{} }} }}\n", if s_ghost { "gh: 400, " } else { "" }, if bare_parent { "p: P { pm: 500 }, " } else { "" });
